@@ -513,6 +513,15 @@ def large_config(rng, npix: int, chunk, where: str = 'file_path'):
     return cfg
 
 
+def large_image_config(rng, shape, where: str = 'bytesio'):
+    """The upper end of the histogram sizes: an image of several hundred thousand bins (each of the three
+    image arrays far above 1 MiB), followed by pixel data so that blocks after the image are located too."""
+    cfg = random_config(rng, thorough=False, small=True, force=['dnd', 'pix'])
+    cfg.update(where=where, prev=0, twice=False, n_dims=4)
+    cfg['dnd'] = rand_dnd(rng, shape=list(shape))
+    return cfg
+
+
 def config_from_behaviour(rng, order, npix, shape, chunk, bo, where='bytesio', prev=0, twice=False):
     """A TLC-enumerated behaviour of SqwBuilder (call order + abstract arguments) made concrete."""
     nruns = 1 + (npix + len(order)) % 3
